@@ -1,6 +1,7 @@
 package rules
 
 import (
+	"go/constant"
 	"go/token"
 	"go/types"
 	"math/big"
@@ -552,6 +553,26 @@ func (e *intervalEnv) rangeOf(v ssa.Value, facts ssau.FactSet, seen map[ssa.Valu
 		if _, ok := x.Tuple.(*ssa.Next); ok && x.Index == 1 {
 			// range-loop index over a slice/string
 			r = r.meet(ival{bi(0), tr.hi})
+		}
+		if nx, ok := x.Tuple.(*ssa.Next); ok && x.Index == 2 && nx.IsString {
+			// the runes of a range over a constant string
+			if rg, ok := nx.Iter.(*ssa.Range); ok {
+				if c, ok := rg.X.(*ssa.Const); ok && c.Value != nil && c.Value.Kind() == constant.String {
+					lo, hi := int64(-1), int64(-1)
+					for _, ch := range constant.StringVal(c.Value) {
+						if lo < 0 || int64(ch) < lo {
+							lo = int64(ch)
+						}
+						if int64(ch) > hi {
+							hi = int64(ch)
+						}
+					}
+					if lo >= 0 {
+						r = r.meet(ival{bi(lo), bi(hi)})
+						e.note("runes of a constant string")
+					}
+				}
+			}
 		}
 	}
 	return e.refine(v, r, facts), true
